@@ -1,4 +1,4 @@
-import FluteModel.Lemmas.SchedMeasureFdt
+import FluteModel.Lemmas.SchedExpire
 /-
   C12 - Transfer lifecycle.  All theorems quantify over every configuration, every FDT table and EVERY
   operation history (add / publish / remove / trigger / read / set_complete with arbitrary times).
@@ -55,6 +55,80 @@ theorem exact_transfer_count_partial (cfg : Cfg) (tbl : List Nat) (ops : List Op
       rw [r.stops, ← r.active, ← npk_eq h2] at this
       exact this
 
+/-- Liveness step for `exact_transfer_count_partial` (the "at least" half, contrapositive form), after every
+    operation history: if an object WITHOUT carousel is still in the sender and `read(now)` returns `None`, then the
+    object is held back for one of these explicit reasons, each of which is lifted by the caller or by the clock:
+    (waiting) it is not published yet (FullFDT: the caller must `publish`), or its start time is in the future, or
+      every slot of its priority queue is occupied (by `in transfer` below, applied to those transfers: each of them
+      is pacing - finding F23 - or finished and released by this very call);
+    (in transfer) its pacing gate is closed (next packet due after `now`), or the transfer is finished (stopped /
+      all packets sent) and this very call releases it (`StopTransfer`, requeue or disappearance).
+    Together with `read_terminates` (at one instant only `mu` calls return something): polling an instant until
+    `None` sends everything that can go out at that instant; polling instants past the start times and the due
+    times the sender itself computed completes every transfer.  The boundary of the polling hypothesis is the
+    reviewer's starvation: ONE call per instant with instants `fdt_duration` apart is not "until `None`" - every
+    call then returns a packet of a freshly republished FDT instance and the object never starts (`slowPoll`
+    below; six calls at one instant complete the transfer).
+    PARTIAL: the "eventually" statement itself (an induction over a polling schedule whose due instants depend
+    on the per-transfer ticks) is not formalised; the drain phase of the correspondence run exercises it. -/
+theorem exact_transfer_count_liveness_step_partial (cfg : Cfg) (tbl : List Nat) (ops : List Op) (now : Nat)
+    (ticks : List (Nat × Nat)) (hsorted : (cfg.queues.map (fun x => x.1)).Pairwise (fun a b => a < b))
+    (toi : Nat) (f : FileDesc) (hadded : isAdded (run (init cfg tbl) ops) toi = true)
+    (hf : getF (run (init cfg tbl) ops).objs toi = some f) (hcar : f.carousel = none)
+    (hnone : (read (run (init cfg tbl) ops) now ticks).2 = Out.none) :
+    (toi ∈ (run (init cfg tbl) ops).queue ∧
+      (((run (init cfg tbl) ops).cfg.mode = .full ∧ f.published = false) ∨
+       (∃ st, f.info.startTime = some st ∧ now < st) ∨
+       (∀ q ∈ (run (init cfg tbl) ops).sessions, q.prio = f.prio → ∀ (j : Nat), q.slots[j]? ≠ some none))) ∨
+    (∃ pc ∈ heldOf (run (init cfg tbl) ops), pc.2.key = toi ∧
+      (gateBlocked f now = true ∨ pc.2.enc.stopped = true ∨ f.nPk ≤ pc.2.enc.sent)) := by
+  have hl := (life_run cfg tbl ops).2
+  have hw := wf_run cfg tbl ops
+  have hin : toi ∈ (run (init cfg tbl) ops).files := by unfold isAdded at hadded; simpa using hadded
+  rcases ((hl.rel toi f hf).inFiles hin).2 with hq | htr
+  · left
+    refine ⟨hq, ?_⟩
+    by_cases hp : (run (init cfg tbl) ops).cfg.mode = .full ∧ f.published = false
+    · exact Or.inl hp
+    · by_cases hs : ∃ st, f.info.startTime = some st ∧ now < st
+      · exact Or.inr (Or.inl hs)
+      · refine Or.inr (Or.inr (idle_waiting cfg tbl ops now ticks hsorted hnone toi f hq hf (Or.inr (by unfold gapElapsed; rw [hcar])) ?_ ?_))
+        · intro hm
+          cases hpb : f.published with
+          | true => rfl
+          | false => exact absurd ⟨hm, hpb⟩ hp
+        · intro st hst
+          rcases Nat.lt_or_ge now st with h | h
+          · exact absurd ⟨st, hst, h⟩ hs
+          · exact h
+  · right
+    obtain ⟨pc, hpc, hk⟩ := hw.transHeld f (getF_mem hf) htr
+    have hk' : pc.2.key = toi := by rw [hk]; exact getF_key hf
+    exact ⟨pc, hpc, hk', idle_held cfg tbl ops now ticks hnone pc hpc f (by rw [hk']; exact hf)⟩
+
+/-- Every StartTransfer has its StopTransfer (oracle class `C12:start-without-stop` as a theorem, for the model's
+    buffer sources): after every operation history the StartTransfer and StopTransfer events of an object alternate,
+    beginning with a Start - the number of Starts equals the number of Stops, plus one exactly when the object is in
+    transfer (`is_transferring`: a slot holds its encoder) in the final state.
+    The transfer-START FAILURE path of stream sources (`BlockEncoder::new` fails -> `release_file`) is not in the
+    model: there the pairing is checked by the engine alone (family `streamfault-*`, seeded change C12-3). -/
+theorem every_start_has_stop (cfg : Cfg) (tbl : List Nat) (ops : List Op) (toi : Nat) :
+    (LM.run toi (trace cfg tbl ops)).starts =
+      (LM.run toi (trace cfg tbl ops)).stops + (if isTransferring (run (init cfg tbl) ops) toi = true then 1 else 0) := by
+  have hl := (life_run cfg tbl ops).2
+  have h := starts_stops_of_checked toi _ (lifecycle_checked cfg tbl ops toi)
+  have hact : (LM.run toi (trace cfg tbl ops)).active = isTransferring (run (init cfg tbl) ops) toi := by
+    unfold isTransferring
+    cases hf : getF (run (init cfg tbl) ops).objs toi with
+    | none =>
+      have := hl.unknown toi hf
+      unfold trace; rw [this]
+    | some f =>
+      have := (hl.rel toi f hf).active
+      unfold trace; rw [this]
+  rw [hact] at h
+  exact h
+
 /-- A carousel object stays in the sender - waiting for its next transfer or in transfer - until it is removed. -/
 theorem carousel_until_removed (cfg : Cfg) (tbl : List Nat) (ops : List Op) (toi : Nat) (a : AddArgs)
     (ha : (LM.run toi (trace cfg tbl ops)).args = some a) (hc : a.carousel.isSome = true)
@@ -80,6 +154,58 @@ theorem carousel_until_removed (cfg : Cfg) (tbl : List Nat) (ops : List Op) (toi
     rcases (r.inFiles hin).2 with h | h
     · exact Or.inl h
     · right; unfold isTransferring; rw [hf]; exact h
+
+/-- Liveness step for `carousel_until_removed` ("is retransmitted"): if a carousel object is still in the sender and
+    `read(now)` returns `None`, the object waits for an explicit reason: not published (FullFDT), start time in the
+    future, its burst of `max_transfer_count` transfers is complete and the carousel gap has not elapsed yet
+    (`gapElapsed = false`: `now - previous end ≤ delay` resp. `now - previous start ≤ interval`), every slot of its
+    queue occupied - or it is in transfer with a closed pacing gate / a finished transfer that this call releases.
+    So a carousel object that is polled (until `None`) past the gap starts its next transfer; for every k there is
+    a k-th start as long as it is not removed.  PARTIAL: the induction over k / the polling schedule is not
+    formalised. -/
+theorem carousel_liveness_step_partial (cfg : Cfg) (tbl : List Nat) (ops : List Op) (now : Nat)
+    (ticks : List (Nat × Nat)) (hsorted : (cfg.queues.map (fun x => x.1)).Pairwise (fun a b => a < b))
+    (toi : Nat) (f : FileDesc) (hadded : isAdded (run (init cfg tbl) ops) toi = true)
+    (hf : getF (run (init cfg tbl) ops).objs toi = some f)
+    (hnone : (read (run (init cfg tbl) ops) now ticks).2 = Out.none) :
+    (toi ∈ (run (init cfg tbl) ops).queue ∧
+      (((run (init cfg tbl) ops).cfg.mode = .full ∧ f.published = false) ∨
+       (∃ st, f.info.startTime = some st ∧ now < st) ∨
+       (f.maxCount ≤ f.info.count ∧ gapElapsed f now = false) ∨
+       (∀ q ∈ (run (init cfg tbl) ops).sessions, q.prio = f.prio → ∀ (j : Nat), q.slots[j]? ≠ some none))) ∨
+    (∃ pc ∈ heldOf (run (init cfg tbl) ops), pc.2.key = toi ∧
+      (gateBlocked f now = true ∨ pc.2.enc.stopped = true ∨ f.nPk ≤ pc.2.enc.sent)) := by
+  have hl := (life_run cfg tbl ops).2
+  have hw := wf_run cfg tbl ops
+  have hin : toi ∈ (run (init cfg tbl) ops).files := by unfold isAdded at hadded; simpa using hadded
+  rcases ((hl.rel toi f hf).inFiles hin).2 with hq | htr
+  · left
+    refine ⟨hq, ?_⟩
+    by_cases hp : (run (init cfg tbl) ops).cfg.mode = .full ∧ f.published = false
+    · exact Or.inl hp
+    · by_cases hs : ∃ st, f.info.startTime = some st ∧ now < st
+      · exact Or.inr (Or.inl hs)
+      · by_cases hgap : f.maxCount ≤ f.info.count ∧ gapElapsed f now = false
+        · exact Or.inr (Or.inr (Or.inl hgap))
+        · refine Or.inr (Or.inr (Or.inr (idle_waiting cfg tbl ops now ticks hsorted hnone toi f hq hf ?_ ?_ ?_)))
+          · rcases Nat.lt_or_ge f.info.count f.maxCount with h | h
+            · exact Or.inl h
+            · right
+              cases hg : gapElapsed f now with
+              | true => rfl
+              | false => exact absurd ⟨h, hg⟩ hgap
+          · intro hm
+            cases hpb : f.published with
+            | true => rfl
+            | false => exact absurd ⟨hm, hpb⟩ hp
+          · intro st hst
+            rcases Nat.lt_or_ge now st with h | h
+            · exact absurd ⟨st, hst, h⟩ hs
+            · exact h
+  · right
+    obtain ⟨pc, hpc, hk⟩ := hw.transHeld f (getF_mem hf) htr
+    have hk' : pc.2.key = toi := by rw [hk]; exact getF_key hf
+    exact ⟨pc, hpc, hk', idle_held cfg tbl ops now ticks hnone pc hpc f (by rw [hk']; exact hf)⟩
 
 /-- `nb_transfers` = number of completed transfers (StopTransfer events) of the object, every one of them
     whole on the wire; the wire is ahead by exactly the one transfer whose last packet is out but whose
@@ -220,6 +346,20 @@ theorem read_never_hangs (s : State) (now : Nat) (ticks : List (Nat × Nat)) :
     (read s now ticks).2 ≠ Out.hang :=
   read_no_hang s now ticks
 
+/-- The boundary of the polling hypothesis of the liveness statements, in general form (the reviewer's starvation):
+    after EVERY history, a `read(now)` made when the expiry test of `current_fdt_will_expire` holds for the time since
+    the last publication (`Expired`: `fdt_duration ≤ now - last_publish` for durations up to 10 s; 1 s resp. 5 s
+    earlier for longer ones; always, if nothing was published yet) returns a packet of an FDT instance - a fresh one
+    is published if none is pending - and never an object packet.  A caller that polls ONCE per instant, with
+    instants at least `fdt_duration` apart, makes every call under this condition: the objects are never started
+    (`slowPoll` below: `fdt_duration` = 1 s, one call per second, zero StartTransfer; six calls at ONE instant
+    complete the transfer).  "Polled until `None`" in the liveness statements is therefore necessary;
+    `fdt_duration = 0` is the extreme case where even that cannot be met (`read_never_idle_fdt_duration_0`, F24). -/
+theorem poll_at_fdt_expiry_returns_fdt (cfg : Cfg) (tbl : List Nat) (ops : List Op) (hfit : cfg.fdtFits = true)
+    (now : Nat) (ticks : List (Nat × Nat)) (hexp : Expired cfg (run (init cfg tbl) ops).lastPublish now) :
+    ∃ k id i, (read (run (init cfg tbl) ops) now ticks).2 = Out.fdt k id i :=
+  read_expired cfg tbl ops hfit now ticks hexp
+
 /-- F24, negation witness in general form: with `fdt_duration = 0` (FDT admitted) EVERY `read` after EVERY history
     returns an FDT packet - repeated reads at a fixed instant never return `None`, whatever `n`, and no object
     packet is ever sent. -/
@@ -270,5 +410,13 @@ example : (LM.run 1 (trace cfgS [] ([.add obj1, .publish 0] ++ (List.replicate 6
 
 /-! the measure on a concrete state: one 3-packet object waiting (max_transfer_count 2), one FDT instance queued -/
 example : mu 5 [1] (run (init cfg1 [1]) [.add obj3, .publish 5]) = 3 * 2 + 1 + (1 + 1) := by decide
+
+/-- non-vacuity of `poll_at_fdt_expiry_returns_fdt`: in `slowPoll` the third call (t = 3 s, last publication at 2 s,
+    `fdt_duration` = 1 s) is made under `Expired` -/
+example : Expired cfgS (run (init cfgS []) (slowPoll.take 4)).lastPublish 3000000000 := by
+  intro lp h
+  have : (run (init cfgS []) (slowPoll.take 4)).lastPublish = some 2000000000 := by decide
+  rw [this] at h; cases h
+  decide
 
 end Flute.Props.C12
